@@ -400,6 +400,7 @@ pub fn def() -> PropDef {
                 cases_quick: 12_000,
                 cases_thorough: 40_000,
                 max_shrink_iters: 3000,
+                limit_factor: 1,
                 strategy: || case_strategy(false),
                 check: run_case,
             }),
@@ -409,6 +410,7 @@ pub fn def() -> PropDef {
                 cases_quick: 1_500,
                 cases_thorough: 8_000,
                 max_shrink_iters: 3000,
+                limit_factor: 1,
                 strategy: || case_strategy(true),
                 check: run_case,
             }),
